@@ -86,6 +86,8 @@ def _run(payload, sub):
     links = [DF.load(({'resources': resources}, iters), strip=False)]
     kw = {} if pol == 'default' else {'on_error': on_error}
     if step['kind'] == 'validate':
+        if 'resources' in step:
+            kw = dict(kw, resources=step['resources'])
         links.append(DF.validate(**kw))
     else:
         for st in step['set_types']:
@@ -128,7 +130,7 @@ class C14(Prop):
             'Non-trivial = at least one corrupted cell; distinct = distinct (step, policy, corrupted types, number of sites, site positions first/middle/last).')
     ASSUMPTIONS = ['"Table Schema\'s cast" = tableschema.Field(descriptor, missing_values=[""]).cast_value', 'rows are observed through datastream() (the step\'s raw output)']
     REAL_VS_STUB = {'real': ['dataflows set_type / validate / schema_validator, tableschema casts'], 'stub': ['corrupt-cell injector between source and step', 'logging custom handlers answering by a seeded pattern']}
-    PROBES = ['two-sites-in-one-row', 'site-in-first-row', 'site-in-last-row', 'required-null', 'regex-multi-field', 'resources-selected', 'transform', 'constraint-minimum', 'date-format',
+    PROBES = ['validate-with-resources-selector', 'two-sites-in-one-row', 'site-in-first-row', 'site-in-last-row', 'required-null', 'regex-multi-field', 'resources-selected', 'transform', 'constraint-minimum', 'date-format',
               'failing-field-followed-by-lexical-field', 'set_type-without-type-argument', 'equal-values-of-different-python-types'] + ['policy:' + p for p in POLICIES]
     TIERS = {'quick': dict(runs=3000, wall=100, run_wall=300),
              'thorough': dict(runs=60000, wall=1700, run_wall=600)}
@@ -172,6 +174,12 @@ class C14(Prop):
                 rows.append(row)
             tables.append({'name': 'res_%d' % (ti + 1), 'fields': fields, 'rows': rows})
         step = {'kind': kind}
+        if kind == 'validate' and ntab == 2 and rng.random() < 0.4:
+            # validate(resources=...): the other resource is not checked and passes through as it is
+            ti = rng.randrange(2)
+            step['resources'] = rng.choice([tables[ti]['name'], [tables[ti]['name']], ti, ti - 2])
+            for f in tables[1 - ti]['fields']:
+                f.pop('checked', None)
         if kind == 'set_type':
             # ONE set_type step: a name or a regex over same-typed fields of one resource; everything else is unchecked
             ti = ntab - 1 if rng.random() < 0.7 else 0
@@ -245,6 +253,8 @@ class C14(Prop):
         return {'tables': tables, 'step': step, 'policy': rng.choice(POLICIES), 'sites': sites, 'answers': [rng.random() < 0.6 for _ in range(rng.randrange(1, 4))]}
 
     def execute(self, sc, ctx):
+        if (sc.get('step') or {}).get('kind') == 'validate' and 'resources' in (sc.get('step') or {}):
+            ctx.probe('validate-with-resources-selector')
         step, pol = sc['step'], sc['policy']
         sites = [s for s in sc.get('sites') or [] if s[0] < len(sc['tables']) and s[1] < len(sc['tables'][s[0]]['rows'])]
         ctx.probe('policy:' + pol)
